@@ -64,7 +64,7 @@ def run(ctx):
         e = r.rvalue(st["rv"], (b, i))
         ttl = dict(e[3])["ttl"]
         pat = Call("unwrap_or",
-                   Call("try_into", Call("Duration::as_secs", A.Or(Call("Instant::saturating_duration_since", PathEnds("1"), Param(2)), Call("Instant::duration_since", PathEnds("1"), Param(2))))),
+                   A.Checked(Call("Duration::as_secs", A.Or(Call("Instant::saturating_duration_since", PathEnds("1"), Param(2)), Call("Instant::duration_since", PathEnds("1"), Param(2))))),
                    AnyConst())
         ctx.check(pat(ttl), "C05.2", "to_rrs:ttl-expr", "ttl = " + A.show(ttl),
                   "ttl is computed as %s; expected floor of saturating (expiry - now)" % A.show(ttl), f.loc(b, i))
